@@ -32,7 +32,7 @@ var ruleNames = func() []string {
 }()
 
 var recRule = ev.New("C01", "rule-catalogue",
-	"a generated block tree (5-20 blocks, families flat / version-gates+halving / no-BIP34 / variable-work, spending transactions) plus ONE candidate block built by a catalogue entry on a generated parent: "+
+	"a generated block tree (5-20 blocks, families flat / version-gates+halving / no-BIP34 / variable-work / retarget-every-4-blocks with the minimum-difficulty exception, without and with the BIP94 base, spending transactions) plus ONE candidate block built by a catalogue entry on a generated parent: "+
 		"valid by construction, on the valid side of the rule's limit, or breaking exactly that rule (proof of work, bits, median-time and 2h timestamp bounds, sub-second time, version gates, coinbase script length, BIP34 height, coinbase value across halvings, "+
 		"legacy and P2SH sigop limits 80000/80004, stripped size 1000000/1000001, merkle root, duplicate-tail merkle mutation, transaction structure, missing/spent/double-spent/later-in-block inputs, value conservation, coinbase maturity-1/maturity, "+
 		"lock-time finality by height and by median time, BIP68 height and 512-second sequence locks at age n/n+1 with the version-1 and disable-bit exemptions, BIP30 overwrite of an unspent/spent coinbase, witness commitment variants, P2PKH signature, and the script flags a block position implies: P2SH redeem execution, DER gate, CHECKLOCKTIMEVERIFY gate, null dummy, P2WPKH signature/amount/empty witness, taproot key path); "+
@@ -67,7 +67,7 @@ func uniform(t *rapid.T, n int, label string) int {
 func TestRuleCatalogue(t *testing.T) {
 	cat := catalogue()
 	rapid.Check(t, func(t *rapid.T) {
-		fam := rapid.SampledFrom([]ce.Family{ce.FamFlat, ce.FamGates, ce.FamGates, ce.FamNoBIP34, ce.FamWork}).Draw(t, "fam")
+		fam := rapid.SampledFrom([]ce.Family{ce.FamFlat, ce.FamGates, ce.FamGates, ce.FamNoBIP34, ce.FamWork, ce.FamRetarget, ce.FamRetarget94}).Draw(t, "fam")
 		minB := 5
 		if fam == ce.FamGates {
 			minB = 3
